@@ -32,7 +32,11 @@ def attribute(tag, run, sibling_clean):
         return ['C02']
     if tag.startswith('c06.'):
         return ['C06']
-    if tag == 'err.content' or tag.startswith('c07.'):
+    if tag == 'err.content':
+        # the report does not describe a fault that is present in the bytes (C07); for a lax decoder this is also "records the fault as
+        # stop error on the layer where it occurred" (C05)
+        return ['C07'] + (['C05'] if m == 'lax' else [])
+    if tag.startswith('c07.'):
         return ['C07']
     if tag.startswith('SPEC.'):
         return ['SPEC']
